@@ -49,7 +49,6 @@ def binary_after_view(case):
 
 def run(tier, seed):
     ck = Check("C13", tier, seed)
-    ck.preds["c13_binary_after_view"] = binary_after_view
     quick = tier == "quick"
     maxd = 2 if quick else 3
     ck.add_mc(vlib.tlc_model_check("Kernel", "MC_Kernel", workers=8))
